@@ -31,7 +31,7 @@ def one(mpath):
         for c in checks:
             for seed in a.seeds.split(","):
                 e = dict(os.environ); e.update(QV_REPO=copy, QV_OUT=os.path.join(work, "out"), VERIF_SEED=seed, QV_JOBS="8")
-                r = subprocess.run([os.path.join(HERE, "check"), c, "--tier", a.tier], env=e, capture_output=True, text=True)
+                r = subprocess.run([os.path.join(HERE, "check"), c, "--tier", meta.get("check_tier", a.tier)], env=e, capture_output=True, text=True)
                 tags = sorted({l.split("tag=")[1].split(" ::")[0] for l in r.stdout.splitlines() if l.startswith("VIOLATION") and "tag=" in l})
                 out.append((c, seed, r.returncode, tags[:4]))
     finally:
@@ -56,7 +56,7 @@ with ThreadPoolExecutor(a.jobs) as ex:
                 meta["missed_when_first_tried"] = True
             meta["checks_run"] = {"%s@seed%s" % (c, s): {"exit": rc, "tags": tags} for c, s, rc, tags in res}
             meta["caught_by"] = sorted({c for c, s, rc, tags in res if rc == 1})
-            meta["tier"] = a.tier
+            meta["tier"] = meta.get("check_tier", a.tier)
             json.dump(meta, open(mp, "w"), indent=1)
 print("seeded changes: %d, missed: %s" % (len(metas), bad))
 sys.exit(1 if bad else 0)
